@@ -892,10 +892,7 @@ func (c *client) maybeOverrideUnsupportedWriteConsistency(isSelect bool, raw *fr
 					zap.Stringer("unsupported", m.Consistency),
 					zap.Stringer("override", overrideConsistency))
 				m.Consistency = overrideConsistency
-				return &frame.Frame{
-					Header: raw.Header,
-					Body:   body,
-				}
+				return c.reencodeFrame(raw, body)
 			} else {
 				c.proxy.logger.Debug("no override required for execute write consistency",
 					zap.Stringer("request", m),
@@ -908,10 +905,7 @@ func (c *client) maybeOverrideUnsupportedWriteConsistency(isSelect bool, raw *fr
 					zap.Stringer("unsupported", m.Consistency),
 					zap.Stringer("override", overrideConsistency))
 				m.Consistency = overrideConsistency
-				return &frame.Frame{
-					Header: raw.Header,
-					Body:   body,
-				}
+				return c.reencodeFrame(raw, body)
 			} else {
 				c.proxy.logger.Debug("no override required for query write consistency",
 					zap.Stringer("request", m),
@@ -924,10 +918,7 @@ func (c *client) maybeOverrideUnsupportedWriteConsistency(isSelect bool, raw *fr
 					zap.Stringer("unsupported", m.Consistency),
 					zap.Stringer("override", overrideConsistency))
 				m.Consistency = overrideConsistency
-				return &frame.Frame{
-					Header: raw.Header,
-					Body:   body,
-				}
+				return c.reencodeFrame(raw, body)
 			} else {
 				c.proxy.logger.Debug("no override required for batch write consistency",
 					zap.Stringer("request", m),
@@ -937,6 +928,19 @@ func (c *client) maybeOverrideUnsupportedWriteConsistency(isSelect bool, raw *fr
 	}
 
 	return raw
+}
+
+// reencodeFrame encodes a modified body into a raw frame so that the header's body length is the length of the body that
+// is actually written. Encoding a `frame.Frame` at write time over-states the length of an uncompressed request that
+// has the tracing flag set (it accounts for a tracing ID that only responses carry), which corrupts the framing.
+func (c *client) reencodeFrame(raw *frame.RawFrame, body *frame.Body) interface{} {
+	frm := &frame.Frame{Header: raw.Header, Body: body}
+	if rawFrm, err := c.codec.ConvertToRawFrame(frm); err == nil {
+		return rawFrm
+	} else {
+		c.proxy.logger.Error("unable to re-encode frame after overriding the consistency level", zap.Error(err))
+		return frm
+	}
 }
 
 func (c *client) isUnsupportedWriteConsistency(consistency primitive.ConsistencyLevel) bool {
